@@ -173,7 +173,13 @@ DeepLeaf == Ty("object") @@ [props |-> [k |-> <<ka, kb, kc>>, v |-> <<RO(Ty("int
 DeepDefs == [R1 |-> Link("R2"), R2 |-> Link("R3"), R3 |-> Link("R4"), R4 |-> Link("R5"), R5 |-> Link("R6"), R6 |-> Link("R7"), R7 |-> Link("R8"),
              R8 |-> Link("R9"), R9 |-> Link("R10"), R10 |-> Link("R11"), R11 |-> Link("R12"), R12 |-> DeepLeaf,
              T |-> Ty("object") @@ [props |-> [k |-> <<ka, kb>>, v |-> <<RO(Ty("integer")), Ty("array") @@ [items |-> S0 @@ [ref |-> "T"], maxItems |-> 1]>>], required |-> <<kb>>,
-                                    addProps |-> [sk |-> "false"]]]
+                                    addProps |-> [sk |-> "false"]],
+             (* a chain of 8 links that ends in recursive tree nodes: the recursive property is a REQUIRED array of references (T2) resp. an optional
+                single-member allOf of a reference (T3); these nodes allow additional properties *)
+             Q1 |-> Link("Q2"), Q2 |-> Link("Q3"), Q3 |-> Link("Q4"), Q4 |-> Link("Q5"), Q5 |-> Link("Q6"), Q6 |-> Link("Q7"), Q7 |-> Link("Q8"), Q8 |-> Link("T2"),
+             P1 |-> Link("P2"), P2 |-> Link("P3"), P3 |-> Link("P4"), P4 |-> Link("P5"), P5 |-> Link("P6"), P6 |-> Link("P7"), P7 |-> Link("P8"), P8 |-> Link("T3"),
+             T2 |-> Ty("object") @@ [props |-> [k |-> <<ka, kb>>, v |-> <<Ty("integer"), Ty("array") @@ [items |-> S0 @@ [ref |-> "T2"], maxItems |-> 1]>>], required |-> <<kb>>],
+             T3 |-> Ty("object") @@ [props |-> [k |-> <<ka, kb>>, v |-> <<Ty("integer"), S0 @@ [allOf |-> <<S0 @@ [ref |-> "T3"]>>]>>], required |-> <<ka>>]]
 NoRefDefs == [none |-> S0]
 
 (* ------------------------------------------------------------------------- *)
@@ -407,7 +413,7 @@ IsOpDesc(x) ==
         x = MkOp("config", "3.0", <<2, a, 0>>, <<2, a, 0>>, <<2, a, 0>>, <<2, a, 0>>, <<2, 1, 0>>, cf)
   (* --- references beyond the depth that gets inlined: chains of 9 and 12 $refs and a recursive schema reached through a required
          reference, with readOnly / nullable / required properties at the far end --- *)
-  \/ Family = "c01" /\ \E d \in AllD, r \in {"R1", "R4", "T"} :
+  \/ Family = "c01" /\ \E d \in AllD, r \in {"R1", "R4", "T", "Q1", "T2", "P1"} :
         x = [Op("deep-ref", d, <<>>, <<[media |-> MJson, schema |-> S0 @@ [ref |-> r], required |-> TRUE]>>, Cfg0) EXCEPT !.defs = DeepDefs]
 
 (* Histories (C03): the coverage cases of operation A, then of operation B, generated in ONE process (labels are objects that *)
